@@ -480,16 +480,44 @@ def _order_free_body(body) -> bool:
   return True
 
 
-def set_iteration(ctx, modules, rule="DET-set", attr_modules=None):
+def _unordered_view(e, attr_names) -> bool:
+  """`<x>.<attr>` or `<x>.<attr>.items() / .values() / .keys()` for an attribute tabled as unordered."""
+  if isinstance(e, ast.Call) and isinstance(e.func, ast.Attribute) and e.func.attr in ("items", "values", "keys") and not e.args:
+    e = e.func.value
+  return isinstance(e, ast.Attribute) and e.attr in attr_names
+
+
+def _only_order_free_uses(scope, name: str, binding) -> bool:
+  """Every read of local `name` in scope is an argument of an order-insensitive consumer."""
+  from ..core import parent
+  uses = [n for n in ast.walk(scope) if isinstance(n, ast.Name) and n.id == name and isinstance(n.ctx, ast.Load)]
+  if not uses:
+    return True
+  for u in uses:
+    p = parent(u)
+    if not (isinstance(p, ast.Call) and unparse(p.func) in _ORDER_FREE and u in p.args):
+      return False
+  return True
+
+
+def set_iteration(ctx, modules, rule="DET-set", attr_modules=None, unordered_attrs=(), exempt=None, what="set"):
   """Flags every order-sensitive iteration over a set (for loop, list/tuple/dict comprehension or
-  generator not consumed by sorted/len/min/max/sum/any/all/set, list()/tuple()/join of a set)."""
+  generator not consumed by sorted/len/min/max/sum/any/all/set, list()/tuple()/join of a set).
+  `unordered_attrs`: attribute names of dicts whose insertion order carries no meaning (their
+  views are treated like sets).  `exempt`: {function qualname: reason}."""
   from ..core import enclosing, parent
   mods = list(_iter_modules(ctx, modules))
-  attr_names = set_attr_names(attr_modules if attr_modules is not None else mods)
+  attr_names = set_attr_names(attr_modules if attr_modules is not None else mods) if what == "set" else set()
+  unordered_attrs = set(unordered_attrs)
+  exempt = exempt or {}
   n = 0
+
+  def is_unordered(e, scope):
+    return _is_set_expr(e, scope, attr_names) or _unordered_view(e, unordered_attrs)
   for m in mods:
     for node in ast.walk(m.tree):
       it = None
+      scope = enclosing(node, (ast.FunctionDef, ast.AsyncFunctionDef)) or m.tree
       if isinstance(node, ast.For):
         if _order_free_body(node.body):
           continue
@@ -498,18 +526,24 @@ def set_iteration(ctx, modules, rule="DET-set", attr_modules=None):
         p = parent(node)
         if isinstance(p, ast.Call) and unparse(p.func) in _ORDER_FREE and node in p.args:
           continue
+        if isinstance(p, ast.Assign) and len(p.targets) == 1 and isinstance(p.targets[0], ast.Name) and _only_order_free_uses(scope, p.targets[0].id, p):
+          continue
         for g in node.generators:
-          scope = enclosing(node, (ast.FunctionDef, ast.AsyncFunctionDef)) or m.tree
-          if _is_set_expr(g.iter, scope, attr_names):
+          if is_unordered(g.iter, scope):
             it = g.iter
       elif isinstance(node, ast.Call) and node.args and (unparse(node.func) in ("list", "tuple", "enumerate", "iter", "next") or (isinstance(node.func, ast.Attribute) and node.func.attr in ("join", "extend"))):
         it = node.args[0]
       if it is None:
         continue
-      scope = enclosing(node, (ast.FunctionDef, ast.AsyncFunctionDef)) or m.tree
-      if _is_set_expr(it, scope, attr_names):
+      if is_unordered(it, scope):
         n += 1
         ctx.unit(m)
-        ctx.bad(rule, f"{ctx.ix.scope_name(m, node)}|iteration over {short(it, 40)}", ctx.where(m, node),
-                f"`{short(node, 70)}` iterates over the set `{short(it, 40)}`: the order depends on the hash seed of the process, so the result may differ from run to run")
+        sn = ctx.ix.scope_name(m, node)
+        if sn in exempt:
+          ctx.ok(rule, f"{sn}|iteration over {short(it, 40)}|exempt", ctx.where(m, node), "tabled: " + exempt[sn])
+          continue
+        ctx.bad(rule, f"{sn}|iteration over {short(it, 40)}", ctx.where(m, node),
+                f"`{short(node, 70)}` iterates over the {what} `{short(it, 40)}`: " +
+                ("the order depends on the hash seed of the process, so the result may differ from run to run" if what == "set"
+                 else "its order is the order in which the entries were created, not their key order"))
   return n
